@@ -172,6 +172,29 @@ func (d *D) Base(idx int, ctx *core.Ctx) *core.Scenario {
 		}
 		sc.Kind = "fmt-misuse"
 	}
+	if sc.Kind == "fmt" && nfiles > 0 {
+		first := argv[len(argv)-nfiles]
+		switch idx % 19 {
+		case 5: // the same file twice on one command line
+			sc.Argv = append(sc.Argv, first)
+			sc.Kind = "fmt-same-file-twice"
+		case 11: // a file that does not exist AFTER files that do: work already done for the earlier ones stays valid
+			sc.Argv = append(sc.Argv, "no-such-file.evy")
+			sc.Kind = "fmt-missing-last"
+		case 13: // a directory among the arguments; the file inside is not named itself (and is already formatted)
+			sc.Files = append(sc.Files, core.FileSpec{Name: "adir/inside.evy", Mode: 0o644, Content: "print \"inside\"\n"})
+			pos := len(sc.Argv) - nfiles + r.Intn(nfiles+1)
+			sc.Argv = append(sc.Argv[:pos:pos], append([]string{"adir"}, sc.Argv[pos:]...)...)
+			sc.Kind = "fmt-dir-arg"
+		case 17: // an absolute path
+			for i, a := range sc.Argv {
+				if a == first {
+					sc.Argv[i] = "@ABS/" + a
+				}
+			}
+			sc.Kind = "fmt-abs-path"
+		}
+	}
 	if idx%7 == 3 {
 		// stdin mode: `evy fmt` and `evy fmt -c` without files. The input is what arrives on
 		// stdin, byte for byte: formatted, formatted but with CRLF or mixed line ends, without
@@ -423,7 +446,11 @@ func (d *D) executeIn(dir string, sc *core.Scenario, faults []simos.Fault) *outc
 				}
 			}
 		}()
-		out.status = evymain.SimMain(sc.Argv[0:], &kout, &kerr)
+		args := make([]string, len(sc.Argv))
+		for i, a := range sc.Argv {
+			args[i] = strings.Replace(a, "@ABS/", dir+"/", 1)
+		}
+		out.status = evymain.SimMain(args, &kout, &kerr)
 	}()
 	os.Stdout = realStdout
 	if capf != nil {
@@ -509,7 +536,7 @@ func invariants(sc *core.Scenario, o *outcome, faults []simos.Fault) *core.Viola
 	allFormatted, anyUnparsable := true, false
 	named := map[string]bool{}
 	for _, a := range sc.Argv {
-		named[a] = true
+		named[strings.TrimPrefix(a, "@ABS/")] = true
 	}
 	linkTarget := map[string]bool{} // files that a named symbolic link points to
 	for _, f := range sc.Files {
@@ -629,7 +656,11 @@ func invariants(sc *core.Scenario, o *outcome, faults []simos.Fault) *core.Viola
 		}
 		return nil
 	}
-	if check && sc.Kind != "fmt-misuse" {
+	if check && sc.Kind == "fmt-missing-last" && o.status == 0 {
+		return &core.Violation{Oracle: "I4-check-status", Signature: "I4:status-zero-for-missing-file", Expected: "`fmt -c` exits zero exactly for input that is already in formatted form (a file that does not exist is not)",
+			Observed: obs(nil), Match: map[string]string{"oracle": "I4-status"}}
+	}
+	if check && sc.Kind != "fmt-misuse" && sc.Kind != "fmt-missing-last" && sc.Kind != "fmt-dir-arg" {
 		if o.status == 0 && !allFormatted {
 			return &core.Violation{Oracle: "I4-check-status", Signature: "I4:status-zero-for-unformatted", Expected: "`fmt -c` exits zero exactly for input that is already in formatted form",
 				Observed: obs(map[string]any{"all_files_formatted": allFormatted}), Match: map[string]string{"oracle": "I4-status"}}
